@@ -79,9 +79,34 @@ pub mod tfs {
     pub broadcast axiom fn try_from_slice_arr4(s: Seq<u8>)
         ensures #[trigger] try_from_slice::<[u8; 4]>(s) matches Some(a) ==> s.len() == 4 && a@ == s,
                 s.len() == 4 ==> try_from_slice::<[u8; 4]>(s).is_some();
+    pub broadcast axiom fn try_from_slice_arr1(s: Seq<u8>)
+        ensures #[trigger] try_from_slice::<[u8; 1]>(s) matches Some(a) ==> s.len() == 1 && a@ == s,
+                s.len() == 1 ==> try_from_slice::<[u8; 1]>(s).is_some();
+    pub broadcast axiom fn try_from_slice_arr2(s: Seq<u8>)
+        ensures #[trigger] try_from_slice::<[u8; 2]>(s) matches Some(a) ==> s.len() == 2 && a@ == s,
+                s.len() == 2 ==> try_from_slice::<[u8; 2]>(s).is_some();
+    pub broadcast axiom fn try_from_slice_arr3(s: Seq<u8>)
+        ensures #[trigger] try_from_slice::<[u8; 3]>(s) matches Some(a) ==> s.len() == 3 && a@ == s,
+                s.len() == 3 ==> try_from_slice::<[u8; 3]>(s).is_some();
+    pub broadcast axiom fn try_from_slice_arr5(s: Seq<u8>)
+        ensures #[trigger] try_from_slice::<[u8; 5]>(s) matches Some(a) ==> s.len() == 5 && a@ == s,
+                s.len() == 5 ==> try_from_slice::<[u8; 5]>(s).is_some();
+    pub broadcast axiom fn try_from_slice_arr6(s: Seq<u8>)
+        ensures #[trigger] try_from_slice::<[u8; 6]>(s) matches Some(a) ==> s.len() == 6 && a@ == s,
+                s.len() == 6 ==> try_from_slice::<[u8; 6]>(s).is_some();
+    pub broadcast axiom fn try_from_slice_arr7(s: Seq<u8>)
+        ensures #[trigger] try_from_slice::<[u8; 7]>(s) matches Some(a) ==> s.len() == 7 && a@ == s,
+                s.len() == 7 ==> try_from_slice::<[u8; 7]>(s).is_some();
+    pub broadcast axiom fn try_from_slice_arr16(s: Seq<u8>)
+        ensures #[trigger] try_from_slice::<[u8; 16]>(s) matches Some(a) ==> s.len() == 16 && a@ == s,
+                s.len() == 16 ==> try_from_slice::<[u8; 16]>(s).is_some();
+    pub broadcast axiom fn try_from_slice_arr32(s: Seq<u8>)
+        ensures #[trigger] try_from_slice::<[u8; 32]>(s) matches Some(a) ==> s.len() == 32 && a@ == s,
+                s.len() == 32 ==> try_from_slice::<[u8; 32]>(s).is_some();
 }
 pub use tfs::*;
-broadcast use {tfs::try_from_slice_arr8, tfs::try_from_slice_arr4};
+broadcast use {tfs::try_from_slice_arr8, tfs::try_from_slice_arr4, tfs::try_from_slice_arr1, tfs::try_from_slice_arr2, tfs::try_from_slice_arr3,
+    tfs::try_from_slice_arr5, tfs::try_from_slice_arr6, tfs::try_from_slice_arr7, tfs::try_from_slice_arr16, tfs::try_from_slice_arr32};
 pub assume_specification<'a, 'b: 'a, U: core::convert::TryFrom<&'a [u8]>>[ Bytes::<'a>::peek_n::<'b, U> ](b: &'b Bytes<'a>, n: usize) -> (r: Option<U>)
     requires b_inv(b),
     ensures
